@@ -17,6 +17,7 @@ pub const DEFAULT_SEED: u64 = 20261002;
 const OOM_SALT: u64 = 0x00F0_0D5A_17;
 const CHUNK: u64 = 2048;
 const MAX_OOM_POINTS: u32 = 160;
+const PERSIST: u32 = 0x8000_0000;
 
 #[derive(Clone, Copy, Debug, PartialEq, Eq, PartialOrd, Ord)]
 pub enum Mode {
@@ -56,8 +57,10 @@ pub fn trace_for(prop: Prop, base: u64, mode: Mode, idx: u64, k: u32) -> Option<
         Mode::Directed => gen::directed(prop).into_iter().nth(idx as usize),
         Mode::Seeded => Some(gen::gen_trace(prop, mix(base, idx))),
         Mode::Oom => {
+            // k's top bit: the failure persists from request k on
             let mut t = gen::gen_trace(prop, mix(base ^ OOM_SALT, idx));
-            t.cfg.fail_at = k;
+            t.cfg.fail_at = k & 0x7fff_ffff;
+            t.cfg.fail_persist = k & PERSIST != 0;
             Some(t)
         }
         Mode::Subsets => gen::subset_trace(prop, idx),
@@ -268,14 +271,18 @@ fn oom_item(prop: Prop, base: u64, idx: u64, agg: &mut Agg) {
     agg.oom_traces += 1;
     let n = dry.res.alloc_requests;
     for k in 1..=n.min(MAX_OOM_POINTS) {
-        t.cfg.fail_at = k;
-        let iso = eval::evaluate_isolated(prop, &t);
-        let mut r = iso.res;
-        if r.oom_fired {
-            r.probes.hit("oom_fired");
+        // a transient failure of request k, then an exhausted heap from k on
+        for persist in [false, true] {
+            t.cfg.fail_at = k;
+            t.cfg.fail_persist = persist;
+            let iso = eval::evaluate_isolated(prop, &t);
+            let mut r = iso.res;
+            if r.oom_fired {
+                r.probes.hit(if persist { "oom_fired_persistent" } else { "oom_fired" });
+            }
+            agg.record(Mode::Oom, idx, if persist { k | PERSIST } else { k }, &r, 0);
+            agg.oom_points += 1;
         }
-        agg.record(Mode::Oom, idx, k, &r, 0);
-        agg.oom_points += 1;
     }
 }
 
